@@ -1,1 +1,14 @@
-"""xv: solver-based verification harnesses for xandikos (CrossHair + z3 over the real code)."""
+"""xv: solver-based verification harnesses for xandikos (CrossHair + z3 over the real code).
+
+The code under analysis is /repo's working tree.  XV_REPO (development aid only: seed trials in a scratch
+worktree while /repo is busy) substitutes another checkout; XV_OUT redirects evidence/ and replays/ with it so
+that a trial never overwrites the evidence of the real tree.  No registered command sets either.
+"""
+
+import os
+import sys
+
+REPO = os.environ.get("XV_REPO", "/repo").rstrip("/")
+OUT = os.environ.get("XV_OUT") or os.path.dirname(os.path.dirname(os.path.abspath(__file__)))
+if REPO != "/repo":
+    sys.path.insert(0, REPO)
